@@ -312,6 +312,13 @@ GRACE = {"quick": 420, "thorough": 2400}  # seconds past the soft wall cap befor
 
 
 def _shard_child(arg, conn):
+    try:  # die with the parent (a killed check must not leave workers behind that hold its pipes open)
+        import ctypes
+        import signal
+
+        ctypes.CDLL("libc.so.6", use_errno=True).prctl(1, int(signal.SIGKILL))
+    except Exception:
+        pass
     try:
         conn.send(run_shard(arg))
     finally:
